@@ -295,6 +295,12 @@ def f23pre : State := BR.Conc.run (initState 1073741824 0 [("cas/k", [1, 1]), ("
 example : (f23pre.lru.order.map (fun e => (e.key, e.val.random))) = [("cas/k", rndOf 0)] ∧
     (f23pre.gets.map (fun g => match g.pc with | .failed e => e.val.random | _ => "")) = ["", rndOf 2, ""] := by decide
 
+/-- non-vacuity of `acked_entry_kept` / `stale_reader_cannot_drop`: in `f23pre` the fresh upload's
+value is indexed (`Holds`), and the stale removal of reader 1 keeps it -/
+example : Holds f23pre.lru "cas/k" (itemOf ⟨"cas/k", [1, 1], .idle⟩ 0) := by
+  unfold Holds; decide
+example : ((BR.Conc.step f23pre (.getRemove 1)).lru.order.map (fun e => e.val.random)) = [rndOf 0] := by decide
+
 #print axioms conc_accounting
 #print axioms conc_quiescent_accounting
 #print axioms read_whole_value
